@@ -500,6 +500,34 @@ static void build_catalogue()
 			});
 		}
 	}
+	// the same probes on tables whose abscissae are scaled by exact powers of two from 2^-43 (1e-13) to 2^43 (1e13): the tolerance is 1% of the edge
+	// interval at every scale, there is no absolute length in it (seeded change C10-r3m3 added an absolute floor of 1e-10)
+	for(int k : {-43, -33, -27, -20, 20, 43})
+	{
+		double sc = std::ldexp(1.0, k);
+		std::vector<double> X = {0.0, 0.125 * sc, 0.5 * sc, 0.75 * sc, 1.0 * sc};
+		std::vector<double> Y = {1.0, 2.0, 0.5, 3.0, 2.5};
+		double tl = 1e-2 * (X[1] - X[0]), tr = 1e-2 * (X[4] - X[3]);
+		std::string tag = " (abscissae scaled by 2^" + std::to_string(k) + ")";
+		for(double m : {1e-3, 1e-6})
+		{
+			A("Interpolate left edge, inside tolerance by " + hexf(m) + tag, [=] { Interpolation I(X, Y); return I(-tl * (1 - m)); });
+			R("Interpolate left edge, outside tolerance by " + hexf(m) + tag, [=] { Interpolation I(X, Y); return I(-tl * (1 + m)); });
+			A("Interpolate right edge, inside tolerance by " + hexf(m) + tag, [=] { Interpolation I(X, Y); return I(X[4] + tr * (1 - m)); });
+			R("Interpolate right edge, outside tolerance by " + hexf(m) + tag, [=] { Interpolation I(X, Y); return I(X[4] + tr * (1 + m)); });
+		}
+		R("Interpolate three edge intervals left of the domain" + tag, [=] { Interpolation I(X, Y); return I(-3 * (X[1] - X[0])); });
+		R("Derivative two edge intervals right of the domain" + tag, [=] { Interpolation I(X, Y); return I.Derivative(X[4] + 2 * (X[4] - X[3]), 1); });
+		R("Integrate up to 5% beyond the right edge" + tag, [=] { Interpolation I(X, Y); return I.Integrate(X[1], X[4] + 5 * tr); });
+		R("Interpolate_2D y beyond tolerance" + tag, [=] {
+			Interpolation_2D I(X, X, std::vector<std::vector<double>>(5, Y));
+			return I(0.3 * sc, X[4] + tr * 1.001);
+		});
+		A("Interpolate_2D both inside tolerance" + tag, [=] {
+			Interpolation_2D I(X, X, std::vector<std::vector<double>>(5, Y));
+			return I(-tl * 0.999, X[4] + tr * 0.999);
+		});
+	}
 	// the shape-parameter guard of the incomplete gamma functions crossed with x (every branch: series x < a+1, continued fraction, x = 0)
 	for(double a : {0.0, -1e-300, -1e-9, -0.25, -0.5, -0.999, -1.0, -2.5})
 		for(double x : {1e-3, 0.2, 0.6, 1.0, 5.0})
@@ -710,6 +738,12 @@ static void random_guard(Rng& rng, uint64_t)
 				X[i] = x;
 				x += rng.loguni(1e-3, 1e2) * (1 + std::fabs(x) * 1e-3);
 				Y[i] = rng.mag(1e-3, 1e3);
+			}
+			if(rng.coin(0.4))
+			{
+				double sc = std::ldexp(1.0, rng.irange(-45, 45));	// exact rescaling: same decisions at every scale
+				for(auto& v : X)
+					v *= sc;
 			}
 			bool left	= rng.coin();
 			double edge = left ? X[1] - X[0] : X[n - 1] - X[n - 2];
